@@ -86,4 +86,5 @@ package queue
 //@   before call (*Tagged).delayGroup assert rotates-served-group: arg1 == g && next != nil
 //@   before call (*sortedFile).allocate assert allocates-unallocated-only: called((*sortedFile).isAllocated) && !lastret((*sortedFile).isAllocated, 0) && lastarg((*sortedFile).isAllocated, 0) == next && arg1 == g.conf.ChunkSize
 //@   loop 0 backedge assert skips-only-unready-groups: next == nil
+//@   loop 0 backedge assert skipped-groups-are-not-rotated: !called((*Tagged).delayGroup)
 //@   loop 1 backedge assert placeholder-stays-predecessor: athead(next != nil && next.next != nil && next.next != next && next.next.prev == next && (next.prev == nil || (next.prev.next == next && next.prev != next && next.prev != next.next))) ==> next == athead(next.next) && next.prev == athead(next)
